@@ -244,13 +244,18 @@ func (c *Ctx) a3Loop(l *mapLoop) []a3Finding {
 			}
 		case isSlice(t):
 			reason, listed := a3AccumTable[fn]
+			replacerFn := fn == "in_toto.SubstituteParameters"
+			if !listed && c.isOrServesOnly(l.f, "in_toto.SubstituteParameters") && len(callsIn(l.f, "strings.NewReplacer")) > 0 {
+				// the replacer construction split off into a helper of SubstituteParameters
+				reason, listed, replacerFn = a3AccumTable["in_toto.SubstituteParameters"], true, true
+			}
 			sorted := c.sortedBeforeUse(l, ph, aliases)
 			switch {
 			case sorted:
 				out = append(out, a3Finding{"", "accumulated slice " + name, "sorted (sort.Strings / sort.Slice / slices.Sort) before any other use after the loop", ph, "ok"})
 			case listed:
 				extra := ""
-				if fn == "in_toto.SubstituteParameters" {
+				if replacerFn {
 					if ok, why := c.replacerPrefixFree(l); !ok {
 						out = append(out, a3Finding{"A3.3", "accumulated slice " + name, "strings.NewReplacer argument order depends on map order and the prefix-freeness facts do not hold: " + why, ph, "bad"})
 						continue
@@ -759,25 +764,60 @@ func (c *Ctx) replacerPrefixFree(l *mapLoop) (bool, string) {
 		return false, "no \"{\"+name+\"}\" concatenation appended in the loop"
 	}
 	okShape := false
+	dict := "p1"
+	if prm, ok := l.rng.X.(*ssa.Parameter); ok {
+		dict = fmt.Sprintf("p%d", paramIndex(prm))
+	}
 	for _, o := range olds {
-		if s := org(o); s == `((const("{")+key(p1))+const("}"))` {
+		if s := org(o); s == `((const("{")+key(`+dict+`))+const("}"))` {
 			okShape = true
 		}
 	}
 	if !okShape {
 		return false, "old strings are not \"{\" + map key + \"}\": " + org(olds[0])
 	}
-	// regexp guard
+	// regexp guard: on this loop's key, or on the key of an earlier, exhaustive range over the same dictionary whose
+	// failure side leaves the function (validate all names first, build afterwards)
 	for _, call := range allCalls(l.f) {
 		if calleeName(call) != "(*regexp.Regexp).MatchString" {
 			continue
 		}
 		cc := call.Common()
+		earlier := false
 		if resolve(cc.Args[1], call) != l.key {
-			continue
+			for _, l2 := range mapLoops(l.f) {
+				if l2 == l || resolve(l2.rng.X, l2.rng) != resolve(l.rng.X, l.rng) || resolve(cc.Args[1], call) != l2.key {
+					continue
+				}
+				okv := extractOf(l2.next, 0)
+				if okv == nil || !c.condAt(okv, false, l.header) {
+					continue
+				}
+				exhaustive := call.Value() != nil
+				for b := range l2.body {
+					if b == l2.header || !reaches(b, l2.header) {
+						continue
+					}
+					for _, sc := range b.Succs {
+						if !l2.body[sc] && !c.failing(sc) {
+							exhaustive = false
+						}
+					}
+				}
+				if exhaustive {
+					for _, cu := range condUsers(call.Value(), false) {
+						if c.failing(branchTaken(cu, false)) {
+							earlier = true
+						}
+					}
+				}
+			}
+			if !earlier {
+				continue
+			}
 		}
-		mc, ok := resolve(cc.Args[0], call).(*ssa.Call)
-		if !ok || (calleeName(mc) != "regexp.MustCompile" && calleeName(mc) != "regexp.Compile") {
+		mc := regexpCompileOf(resolve(cc.Args[0], call))
+		if mc == nil {
 			continue
 		}
 		pat, isConst := constString(mc.Call.Args[0])
@@ -790,6 +830,9 @@ func (c *Ctx) replacerPrefixFree(l *mapLoop) (bool, string) {
 		}
 		if admitsRune(re, '{') || admitsRune(re, '}') || !anchored(re) {
 			return false, fmt.Sprintf("pattern %q admits a brace or is not anchored", pat)
+		}
+		if earlier {
+			return true, fmt.Sprintf("old = \"{\"+key+\"}\"; every key matched constant %q (no braces, anchored) in an earlier exhaustive pass", pat)
 		}
 		// the append must be dominated by the match-true edge
 		for b := range l.body {
@@ -1167,4 +1210,43 @@ func flagBackOK(l *mapLoop, flag *ssa.Phi, v ssa.Value, final string, seen map[s
 		return true
 	}
 	return false
+}
+
+// regexpCompileOf: the regexp.MustCompile / Compile call that produced v: v itself, or the single initialisation of the
+// package-level variable v is loaded from (nothing else stores into package-level variables: R-C16-1).
+func regexpCompileOf(v ssa.Value) *ssa.Call {
+	if ex, ok := v.(*ssa.Extract); ok {
+		v = ex.Tuple
+	}
+	if mc, ok := v.(*ssa.Call); ok && (calleeName(mc) == "regexp.MustCompile" || calleeName(mc) == "regexp.Compile") {
+		return mc
+	}
+	u, ok := v.(*ssa.UnOp)
+	if !ok || u.Op != token.MUL {
+		return nil
+	}
+	g, ok := u.X.(*ssa.Global)
+	if !ok || g.Pkg == nil {
+		return nil
+	}
+	initf := g.Pkg.Func("init")
+	if initf == nil {
+		return nil
+	}
+	var found *ssa.Call
+	n := 0
+	for _, b := range initf.Blocks {
+		for _, in := range b.Instrs {
+			if st, ok := in.(*ssa.Store); ok && st.Addr == ssa.Value(g) {
+				n++
+				if mc, ok := st.Val.(*ssa.Call); ok && (calleeName(mc) == "regexp.MustCompile" || calleeName(mc) == "regexp.Compile") {
+					found = mc
+				}
+			}
+		}
+	}
+	if n != 1 {
+		return nil
+	}
+	return found
 }
